@@ -413,6 +413,49 @@ def corpus_cases():
            "min_pts": 2, "min_iv": 1, "gen": "corpus"}
 
 
+def check_reuse(ck, rng, n):
+    """history: a slicer object that already sliced one vector must slice the next one like a fresh slicer"""
+    for _ in range(n):
+        cases = list(random_cases(rng, 1))
+        case = cases[0]
+        if case["slicer"] == "ppi":
+            other = [float(v) for v in rng.permutation(case["data"])][: max(2, len(case["data"]) // 2)]
+        else:
+            other = [float(v) * 1.7 + 0.3 for v in case["data"]][: max(2, len(case["data"]) * 2 // 3)]
+        from virocon.intervals import (NumberOfIntervalsSlicer, PointsPerIntervalSlicer, WidthOfIntervalSlicer)
+
+        def make():
+            ref = _mk_ref(case.get("ref", "callable"))
+            vr = tuple(case["value_range"]) if case.get("value_range") is not None else None
+            if case["slicer"] == "width":
+                return WidthOfIntervalSlicer(case["width"], reference=ref, right_open=case["right_open"], value_range=vr,
+                                             min_n_points=0, min_n_intervals=0)
+            if case["slicer"] == "number":
+                return NumberOfIntervalsSlicer(case["n_intervals"], reference=ref, include_max=case["include_max"],
+                                               value_range=vr, min_n_points=0, min_n_intervals=0)
+            return PointsPerIntervalSlicer(case["n_points"], reference=RecordingRef(), last_full=case["last_full"],
+                                           min_n_points=0, min_n_intervals=0)
+
+        def run(s, d):
+            try:
+                with warnings.catch_warnings():
+                    warnings.simplefilter("ignore")
+                    m, r, b = s.slice_(np.array(d, dtype=float))
+                return ([list(map(bool, x)) for x in m], [float(x) for x in r], [(float(x), float(y)) for x, y in b])
+            except Exception as e:  # noqa: BLE001
+                return ("err", type(e).__name__)
+
+        used = make()
+        run(used, case["data"])
+        got, want = run(used, other), run(make(), other)
+        c2 = dict(case, gen="reuse", other=other)
+        ck.case(c2, nontrivial=True, sample=False)
+        ck.count("gen=reuse")
+        if repr(got) != repr(want):
+            ck.fail(sig(case, "reused_slicer_equals_fresh_slicer"), c2,
+                    f"slicer that sliced another vector before returns {str(got)[:120]} but a fresh one {str(want)[:120]}")
+
+
 def sig(case, predicate):
     return {"entry": {"width": "WidthOfIntervalSlicer", "number": "NumberOfIntervalsSlicer",
                       "ppi": "PointsPerIntervalSlicer"}[case["slicer"]] + ".slice_",
@@ -479,6 +522,7 @@ def main(ck):
     rnd = list(random_cases(rng, 6000 if thorough else 500))
     process(ck, rnd)
     process(ck, list(edge_probe_cases(rnd)))
+    check_reuse(ck, rng, 600 if thorough else 80)
     ck.extra["exhaustive"] = False
     ck.extra["lattice_exhaustive_up_to_length"] = 5 if thorough else 3
 
